@@ -8,6 +8,7 @@ from .data_types import (
     is_composite_type,
     is_list_type,
     is_nullable_type,
+    is_struct_type,
 )
 
 _MYPY = False
@@ -348,6 +349,10 @@ class ApiNamespace:
         self.aliases.sort(key=lambda alias: alias.name)
         self.annotations.sort(key=lambda annotation: annotation.name)
         self.annotation_types.sort(key=lambda annotation_type: annotation_type.name)
+        for data_type in self.data_types:
+            if is_struct_type(data_type):
+                data_type.subtypes.sort(
+                    key=lambda subtype: (subtype.namespace.name, subtype.name))
 
     def __repr__(self):
         # type: () -> str
